@@ -33,7 +33,9 @@ partial def parseFields : Nat → List String → Option (GoFields × List Strin
   | 0, r => some (.nil, r)
   | k + 1, name :: tag :: r =>
     match unhexChars tag, parseTy r with
-    | some tag, some (t, r) => (parseFields k r).map fun (fs, r) => (.cons name tag t fs, r)
+    | some tag, some (t, r) =>
+      (parseFields k r).map fun (fs, r) =>
+        if name.front = '~' then (.consRO (String.ofList (name.toList.drop 1)) tag t fs, r) else (.cons name tag t fs, r)
     | _, _ => none
   | _, _ => none
 end
